@@ -117,11 +117,10 @@ Section Conv.
     | None => if negb cc || collides cc scope x then s_orig x else conv (s_kind x) (s_orig x)
     end.
 
-  (* what is pasted into the emitted text.  Everything formats the Symbol through Display -- except
-     Codegen::write_const (codegen/mod.rs 438-444): `self.def_lit(&name, ..)` takes `name: &str`, the Symbol is
-     deref'ed and the RAW name is written after `pub const` / `pub static` (finding F-14n) *)
+  (* what is pasted into the emitted text: everything formats the Symbol through Display -- since fix F-14n also
+     Codegen::write_const (codegen/mod.rs: `self.def_lit(&name.to_string(), ..)`) *)
   Definition emitted (cc : bool) (scope : list sib) (x : sib) : string :=
-    if is_const_kind (s_kind x) then rust_name cc scope x else display (rust_name cc scope x).
+    display (rust_name cc scope x).
 End Conv.
 
 (* ---- ASCII lower case (str::to_ascii_lowercase) ------------------------------------------------ *)
